@@ -5,21 +5,24 @@ namespace PsVerif.Props.Ties
 open PsVerif.Generated
 
 /-! ## determinism (C17): every place where a Go map is iterated, and no clock/random/address use -/
+/-- `(package, does the iterating function sort?, which map)`; the description does not mention the function or the
+way the keys are collected (`range`, `maps.Keys`), so that moving a loop into a helper does not change it; a new
+place that iterates a map without sorting, or one more of a kind, has to be reviewed -/
 def allowedMapSites : List (String × String × String) :=
-    [(".", "NewInterpreter", "maps.Clone cidInit"),
-     (".", "ReadCMap", "maps.Keys (Interpreter).CMapDirectory"),
-     (".", "bCopy", "range local:Dict"),
-     (".", "bForall", "range local:Dict"),
-     ("afm", "Metrics.FontBBoxPDF", "range (Metrics).Glyphs"),
-     ("afm", "Metrics.GlyphList", "maps.Keys (Metrics).Glyphs"),
-     ("afm", "Metrics.Write", "maps.Keys (GlyphInfo).Ligatures"),
-     ("type1", "Font.FontBBox", "range (Font).Glyphs"),
-     ("type1", "Font.FontBBoxPDF", "range (Font).Glyphs"),
-     ("type1", "Font.GlyphList", "maps.Keys (Font).Glyphs"),
-     ("type1", "Font.WidthsMapPDF", "range (Font).Glyphs"),
-     ("type1", "Font.encodeCharstrings", "range (Font).Glyphs"),
-     ("type1", "Read", "maps.Keys local:Dict"),
-     ("type1", "Read", "range (Interpreter).FontDirectory")]
+    [(".", "copy", "clone cidInit"),
+     (".", "sorted", "iterate (Interpreter).CMapDirectory"),      -- ReadCMap: smallest name
+     (".", "sorted", "iterate local:Dict"),                       -- forall: keys sorted
+     (".", "unsorted", "iterate local:Dict"),                     -- copy: insertion into another map
+     ("afm", "sorted", "iterate (GlyphInfo).Ligatures"),
+     ("afm", "sorted", "iterate (Metrics).Glyphs"),
+     ("afm", "sorted", "iterate (Metrics).Glyphs"),               -- FontBBoxPDF: union in name order
+     ("type1", "sorted", "iterate (Font).Glyphs"),
+     ("type1", "sorted", "iterate (Interpreter).FontDirectory"),
+     ("type1", "sorted", "iterate local:Dict"),
+     ("type1", "unsorted", "iterate (Font).Glyphs"),              -- FontBBox, FontBBoxPDF: union; WidthsMapPDF and
+     ("type1", "unsorted", "iterate (Font).Glyphs"),              -- encodeCharstrings: map to map
+     ("type1", "unsorted", "iterate (Font).Glyphs"),
+     ("type1", "unsorted", "iterate (Font).Glyphs")]
 theorem map_sites : within Structure.mapSites allowedMapSites = true := by decide
 
 theorem no_clock_no_addr : Structure.clockSites = [] := rfl
